@@ -168,4 +168,50 @@ __CPROVER_ensures((wv_hl_watch >= __CPROVER_old(wv_hl_n) && WV_REL < WV_NFULL) =
 /* ... and the final routine gets the tail, its length, and a bit counter that equals 8 * (bytes hashed before) */
 __CPROVER_ensures(wv_hl_fptr == string + 64 * (size_t)WV_NFULL && wv_hl_fr == (length & 63) && wv_hl_ftotal == 512ull * WV_NFULL)
 __CPROVER_ensures(hashres[wv_gr] == WV_HSER(this, wv_gr));
+
+/* ---------------- hashing buffer: the sequence of units delivered is 64, 64, ..., 64, short (lengths; content is not modelled) */
+#include "file.h"
+#define WV_FB_LEFT_OLD(fb) ((__CPROVER_old((fb)->has_extra) ? 64ull : 0ull) + \
+  (__CPROVER_old((fb)->now) <= __CPROVER_old((fb)->total) ? 64ull * (__CPROVER_old((fb)->total) - __CPROVER_old((fb)->now)) + __CPROVER_old((fb)->tail) : 0ull) + \
+  (__CPROVER_old((fb)->fp->len) - __CPROVER_old((fb)->fp->pos)))
+#define WV_FB_FRESH(fb) (__CPROVER_is_fresh(fb, sizeof(filebuffer64)) && __CPROVER_is_fresh((fb)->fp, sizeof(wv_FILE)))
+
+void filebuffer64__ctor(filebuffer64 *this, FILE *fp, u8_t *block)
+__CPROVER_requires(__CPROVER_is_fresh(this, sizeof(*this)) && __CPROVER_is_fresh(fp, sizeof(*fp)) && WV_FILE_OK(fp) &&
+                   (block != NULL ==> __CPROVER_is_fresh(block, 64)))
+__CPROVER_assigns(*this, fp->pos, fp->eof)
+__CPROVER_ensures(this->fp == fp && this->_base._wv_tag == WV_TAG_filebuffer64 && WV_FB_OK(this) && !WV_FB_DONE(this))
+__CPROVER_ensures(this->has_extra == (block != NULL))
+/* the stream is: the prefix block if one was given, then the file from its position at construction to its end */
+__CPROVER_ensures(WV_FB_LEFT(this) == (block != NULL ? 64ull : 0ull) + (__CPROVER_old(fp->len) - __CPROVER_old(fp->pos)));
+
+u32_t filebuffer64__read_buffer64(filebuffer64 *this, u8_t *block)
+__CPROVER_requires(WV_FB_FRESH(this) && WV_FB_OK(this) && !WV_FB_DONE(this) && __CPROVER_is_fresh(block, 64))
+__CPROVER_assigns(WV_ARR(this->b), this->has_extra, this->total, this->now, this->tail, this->fp->pos, this->fp->eof, __CPROVER_object_upto(block, 64))
+__CPROVER_ensures(__CPROVER_return_value == (WV_FB_LEFT_OLD(this) >= 64 ? 64 : WV_FB_LEFT_OLD(this)))
+__CPROVER_ensures(WV_FB_LEFT(this) == WV_FB_LEFT_OLD(this) - __CPROVER_return_value)
+__CPROVER_ensures(WV_FB_OK(this) && WV_FB_DONE(this) == (__CPROVER_return_value < 64))
+__CPROVER_ensures(this->fp == __CPROVER_old(this->fp) && this->fp->len == __CPROVER_old(this->fp->len));
+
+/* R5 dispatcher (filebuffer64 is the only subclass) */
+u32_t buffer64__read_buffer64(buffer64 *this, u8_t *block)
+__CPROVER_requires(WV_FB_FRESH(WV_FB(this)) && WV_TAG_OF(this) == WV_TAG_filebuffer64 && WV_FB_OK(WV_FB(this)) && !WV_FB_DONE(WV_FB(this)) && __CPROVER_is_fresh(block, 64))
+__CPROVER_assigns(__CPROVER_object_whole(this), WV_FB(this)->fp->pos, WV_FB(this)->fp->eof, __CPROVER_object_upto(block, 64))
+__CPROVER_ensures(__CPROVER_return_value == (WV_FB_LEFT_OLD(WV_FB(this)) >= 64 ? 64 : WV_FB_LEFT_OLD(WV_FB(this))))
+__CPROVER_ensures(WV_FB_LEFT(WV_FB(this)) == WV_FB_LEFT_OLD(WV_FB(this)) - __CPROVER_return_value)
+__CPROVER_ensures(WV_FB_OK(WV_FB(this)) && WV_FB_DONE(WV_FB(this)) == (__CPROVER_return_value < 64) && WV_TAG_OF(this) == WV_TAG_filebuffer64)
+__CPROVER_ensures(WV_FB(this)->fp == __CPROVER_old(WV_FB(this)->fp) && WV_FB(this)->fp->len == __CPROVER_old(WV_FB(this)->fp->len));
+
+/* driver over a stream: every 64-byte unit goes to the compression function in order, the short unit to the final routine
+   with the bit count of what was hashed before; the whole stream is consumed */
+void Hashmaster__getFileHash(Hashmaster *this, buffer64 *buffer, u8_t *hashres)
+__CPROVER_requires(__CPROVER_is_fresh(this, WV_HM_SIZE) && WV_IS_HASHER(this) && WV_FB_FRESH(WV_FB(buffer)) && WV_TAG_OF(buffer) == WV_TAG_filebuffer64 &&
+                   WV_FB_OK(WV_FB(buffer)) && !WV_FB_DONE(WV_FB(buffer)) && __CPROVER_is_fresh(hashres, WV_HLEN(this)) && wv_g < 64 && wv_gr < WV_HLEN(this) && wv_hl_n < (1ull << 40))
+__CPROVER_assigns(__CPROVER_object_whole(this), __CPROVER_object_whole(buffer), WV_FB(buffer)->fp->pos, WV_FB(buffer)->fp->eof, WV_HGHOSTS, wv_fb_left0)
+__CPROVER_assigns(WV_ASSIGNS_DIGEST(this, hashres))
+__CPROVER_ensures(WV_TAG_OF(this) == __CPROVER_old(WV_TAG_OF(this)))
+__CPROVER_ensures(wv_hl_n == __CPROVER_old(wv_hl_n) + (WV_FB_LEFT_OLD(WV_FB(buffer)) >> 6) + ((WV_FB_LEFT_OLD(WV_FB(buffer)) & 63) < 56 ? 1 : 2))
+__CPROVER_ensures(wv_hl_fr == (WV_FB_LEFT_OLD(WV_FB(buffer)) & 63) && wv_hl_ftotal == 512ull * (WV_FB_LEFT_OLD(WV_FB(buffer)) >> 6))
+__CPROVER_ensures(WV_FB_LEFT(WV_FB(buffer)) == 0 && WV_FB(buffer)->fp->pos == WV_FB(buffer)->fp->len)
+__CPROVER_ensures(hashres[wv_gr] == WV_HSER(this, wv_gr));
 #endif
